@@ -184,6 +184,20 @@ pub mod encrypt {
     { unimplemented!() }
 }
 
+pub enum DecryptError { ChunkLen, ChaPolyDecrypt, UnexpectedData, IORead(vio::Error), IOWrite(vio::Error), Other(String) }
+pub mod decrypt {
+    use vstd::prelude::*;
+    use super::*;
+    /// kestrel_crypto::decrypt::pass_decrypt as the CLI calls it (contract: units/crypto.vt; opaque here - only the
+    /// provenance of the `password` ARGUMENT is checked at the call site)
+    #[verifier::external_body]
+    pub fn pass_decrypt(ciphertext: &mut Box<dyn VRead>, plaintext: &mut Box<dyn VWrite>, password: &[u8], file_format: PassFileFormat)
+        -> (r: Result<(), DecryptError>)
+    { unimplemented!() }
+}
+impl From<DecryptError> for AnyhowError { #[verifier::external_body] fn from(e: DecryptError) -> AnyhowError { AnyhowError } }
+impl From<EncryptError> for AnyhowError { #[verifier::external_body] fn from(e: EncryptError) -> AnyhowError { AnyhowError } }
+
 // --- std::env::var and passterm as the password prompts use them (rule R1: std::env:: -> venv::)
 /// the value of an environment variable exactly as the user supplied it
 pub uninterp spec fn env_value(name: Seq<char>) -> Seq<char>;
